@@ -5,7 +5,7 @@ META = {
                    "recipient is the current primary owner, it is sent the message at most once and only after its policy allowed it, a refused or undeliverable call "
                    "is delivered to no one and earns its sender an error, the transaction is executed xor cancelled exactly once.",
     "outside": ["real sockets, slow readers, libdbus's outgoing queue", "ordering across several bus_dispatch invocations (each runs to completion single-threaded)",
-                "FIFO order among several messages staged for one connection in one transaction (only single-message transactions are executed here)", "that body and header fields arrive intact (C02/C12)"],
+                "that body and header fields arrive intact (C02/C12)"],
 }
 def _other(pid):
     p = os.path.join(os.path.dirname(__file__), pid + ".py")
@@ -15,4 +15,11 @@ def jobs(tier):
     for j in _other("C09").jobs(tier):
         if j.name == "error_reply" or j.name.startswith("expire."):
             j.group = "C05.c+d"; J.append(j)
+    # C05.c: per-recipient FIFO and all-or-nothing of one transaction (real bus_transaction_send / execute / cancel), recipients of the three messages are job shape
+    for d in ("000", "001", "010", "100", "011", "012", "120", "201"):
+        J.append(Job(name=f"transaction_fifo.{d}", group="C05.c", harness="harness/C09_pending.c", defines={"P": 0, "OP": 10, "D0": int(d[0]), "D1": int(d[1]), "D2": int(d[2])}, real=["dbus/dbus-list.c"],
+                     env=["assert_stubs.c", "mem.c", "pool_lock.c", "msg_model.c", "msg_build.c"], checks="assert", unwind=7, unwindset=["strcmp.0:48"], timeout=300,
+                     encodes=["bus_transaction_send", "bus_transaction_execute_and_free", "bus_transaction_cancel_and_free", "connection_execute_transaction", "connection_cancel_transaction", "message_to_send_free"],
+                     stubs=["libdbus send = ghost log of (connection, message)", "preallocated sends = counted blocks"],
+                     bounds=f"three messages staged for connections {d[0]}, {d[1]}, {d[2]} in one transaction; execute or cancel symbolic", shape=f"transaction with recipients {d}"))
     return J
